@@ -31,6 +31,12 @@ ival, bval, rval, sval, items, elems, oid = (_A[k] for k in ('ival', 'bval', 'rv
 
 EMPTY = z3.Empty(SeqV)
 
+
+def prefix_extension(s, i):
+    """`s[:i+1] == s[:i] ++ [s[i]]` -- the formula of the lemma "prefix extension" (valid for 0 <= i < len(s)).  One builder for the lemma unit that proves it for an
+    arbitrary (s, i) on every run (contracts.axioms.SeqLemmas) and for the engine, which hands the solver its instance at each step of a `for x in seq` (core.SeqIter.pull)."""
+    return z3.SubSeq(s, 0, i + 1) == z3.Concat(z3.SubSeq(s, 0, i), z3.Unit(s[i]))
+
 # ------------------------------------------------------------------ known classes
 # A single-inheritance tree of the classes the code under verification mentions.  The class of an
 # arbitrary value is abstracted by its Most Specific Known Ancestor (an enumeration constant), so
